@@ -40,7 +40,7 @@ type Listpack struct {
 	data        []byte //
 	p           uint32 //
 	numBytes    uint32 // 4 byte, the number of bytes
-	numElements uint16 // 2 byte, the number of Elements
+	numElements uint32 // number of elements (the 2 byte header field, or counted when that says 65535 = unknown)
 }
 
 func NewListpack(data []byte) *Listpack {
@@ -48,8 +48,18 @@ func NewListpack(data []byte) *Listpack {
 
 	lp.data = data
 	lp.numBytes = binary.LittleEndian.Uint32(data[:4])
-	lp.numElements = binary.LittleEndian.Uint16(data[4:6])
+	lp.numElements = uint32(binary.LittleEndian.Uint16(data[4:6]))
 	lp.p = 4 + 2
+	if lp.numElements == math.MaxUint16 {
+		// listpack.c: 65535 means "unknown, traverse to count"
+		n := uint32(0)
+		for lp.data[lp.p] != 0xFF {
+			lp.Next()
+			n++
+		}
+		lp.numElements = n
+		lp.p = 4 + 2
+	}
 
 	return lp
 }
@@ -146,7 +156,7 @@ func (lp *Listpack) NextInteger() int64 {
 	return ret
 }
 
-func (lp *Listpack) NumElements() uint16 {
+func (lp *Listpack) NumElements() uint32 {
 	return lp.numElements
 }
 
